@@ -22,7 +22,9 @@ TRUST = [
     "as last-write-wins, np.argsort as 'any permutation sorting the labels'): modelled, not verified; tied to the code by the correspondence run K",
     "LAPACK eigvalsh: the spectral clauses are theorems about characteristic polynomials (equal char. polynomial => equal spectrum with multiplicities is the "
     "only step to the property's wording); eigvalsh comparisons (tolerance 1e-9*(1+|H|)) are numerical support",
-    "the prefactor i/4 (and the dyadic scale of J) is symbolic in the model: model A4 = SJ*ham, implementation H = (i/(4 SJ)) A4",
+    "the prefactor i/4 (and the dyadic scale of J) is symbolic in the model: model A4 = SJ*ham, implementation H = (i/(4 SJ)) A4; the theorems hold for every real prefactor t",
+    "np.argsort (bisect_lattice) is an external routine: contract 'a permutation that sorts the labels' (is_argsort), evaluated by the extracted driver on the vertex order recovered from the "
+    "implementation's output positions; bisections of lattices with duplicate vertex positions are counted and skipped",
 ]
 ASSUMPTIONS = ["lattice without self-loops, all edge ends < n_vertices; u, J arbitrary (theorems), u in {-1,1}, J positive dyadic (runs)",
                "colour indices within range of J (numpy raises IndexError otherwise)"]
